@@ -660,7 +660,7 @@ class KeyPool:
 
 
 COINS_MAIN = ["btc", "xtn", "ltc", "bch", "btg"]
-COINS_OTHER = ["doge", "dash", "grs", "bc", "mona", "via", "xch", "xtg"]
+COINS_OTHER = ["doge", "dash", "bc", "mona", "via", "xch", "xtg", "tbtx"]  # grs: WIF encoding needs the groestlcoin_hash package, absent here
 HASH_TYPES = [1, 2, 3, 0x81, 0x82, 0x83]
 KINDS = ["p2pkh", "p2pk", "p2wpkh", "p2sh-p2wpkh", "ms", "p2sh-ms", "p2wsh-ms", "p2sh-p2wsh-ms"]
 
@@ -977,7 +977,7 @@ def gen(ctx, emit):
     for _ in range(ctx.n(4, 40)):
         emit("c05_fastcheck %d %d %d" % (rng.randrange(1, N_ORDER), rng.randrange(0, 1 << 256) if rng.random() < 0.9 else 0, rng.randrange(2)))
     gen_der(ctx, emit, ctx.n(60, 3000))
-    gen_sign_solver(ctx, emit, ctx.n(30, 600))
+    gen_sign_solver(ctx, emit, ctx.n(200, 4000))
     gen_keychain(ctx, emit, ctx.n(20, 600))
 
     # --- boundary corpus: every template x coin, default hash type, all inputs
@@ -1070,7 +1070,7 @@ def gen(ctx, emit):
         emit(kc_scenario_op(ctx, rng.choice(COINS_MAIN + COINS_OTHER[:3]), kinds, ht=rng.choice([None, 1, 0x83])))
 
     # --- random mixes
-    for _ in range(ctx.n(30, 1500)):
+    for _ in range(ctx.n(60, 1500)):
         coin = rng.choice(COINS_MAIN * 3 + COINS_OTHER)
         sc = Scenario(ctx, coin, pool)
         for _i in range(rng.randint(1, 4)):
